@@ -1,10 +1,13 @@
 #!/bin/bash
 # apply a seeded change to /repo, run the given checks, undo it straight afterwards
+# (evidence files are records of the CLEAN tree: they are saved before and restored after)
 # usage: try_mutant.sh <patch.diff> <tier> <Cxx>...
 P=$1; TIER=$2; shift 2
 cd /repo && git apply "$P" || { echo "patch does not apply to /repo"; exit 2; }
 cd /verif
+SAVE=$(mktemp -d /root/evsave.XXXXXX); cp evidence/*.json $SAVE/
 for c in "$@"; do
   ./check $c $TIER 2>&1 | grep -E "VIOLATION|KNOWN|^\[$c\]" | cut -c1-400
 done
+cp $SAVE/*.json evidence/; rm -rf $SAVE
 git -C /repo checkout -- . ; git -C /repo status --short | head -3
